@@ -64,6 +64,12 @@ def gen_program(rnd, depth, size):
         for _ in range(2):
             tagc[0] += 1
             main.append(('call', 'y%d' % tagc[0], n, [rnd.choice(['true', ('var', 'arr'), 'a'])])); main.append(('emit', [('var', 'y%d' % tagc[0])]))
+        if not fns[k_][1]:
+            # not <scope>: the output variable already holds a value (set by hand, then left by the previous call); a call that ends
+            # without a value must leave it undefined (for <scope> functions this corner is left open by the property)
+            main.append(('set', 'w%d' % k_, 'k'))
+            for arg in ('false', 'a'):
+                main.append(('call', 'w%d' % k_, n, [arg])); main.append(('emit', [('var', 'w%d' % k_), 'z']))
     return fns, main
 
 
